@@ -28,6 +28,10 @@ type HConfig struct {
 	// CheckEvery > 1: the full observation runs only after every n-th step, so lazily loaded state
 	// (segments not yet indexed after a reopen, GC'd readers) is still lazy when the next operation runs
 	CheckEvery int `json:"check_every"`
+	// DirStyle: how the directory is spelled in Open (0 clean, 1 trailing slash, 2 doubled slash, 3 via "x/..")
+	DirStyle int `json:"dir_style,omitempty"`
+	// WallClock: every message is published with the zero time, i.e. stamped by the log (monotone wall clock)
+	WallClock bool `json:"wall_clock,omitempty"`
 }
 
 type OpenOpts struct {
@@ -138,7 +142,7 @@ var Profiles = map[string]*Profile{
 	"C10": {Name: "C10", Prop: "C10", Weights: weights(map[string]int{"delete": 20, "backup": 0, "pkg": 1, "compact": 2}), Own: own("time"), ForceMono: true, TinyRollBias: true},
 	"C11": {Name: "C11", Prop: "C11", Weights: weights(map[string]int{"reopen": 18, "migrate": 5, "backup": 0, "ro": 1}), Own: own("index", "rmidx")},
 	"C12": {Name: "C12", Prop: "C12", Weights: weights(map[string]int{"delete": 30, "trim": 2, "compact": 2, "backup": 0, "ro": 0, "pkg": 1}), Own: own("delete", "scan")},
-	"C13": {Name: "C13", Prop: "C13", Weights: weights(map[string]int{"backup": 0, "ro": 2}), Own: own("stat", "size")},
+	"C13": {Name: "C13", Prop: "C13", Weights: weights(map[string]int{"backup": 0, "ro": 2, "reopen": 14}), Own: own("stat", "size", "layout")},
 	"C15": {Name: "C15", Prop: "C15", Weights: weights(map[string]int{"trim": 25, "delete": 12, "compact": 1, "backup": 0, "ro": 0}), Own: own("trim")},
 	"C16": {Name: "C16", Prop: "C16", Weights: weights(map[string]int{"compact": 25, "trim": 1, "delete": 6, "backup": 0, "ro": 0, "migrate": 1, "pkg": 1}), Own: own("compact"), SmallKeys: true, RelTime: true, NoZeroTime: true},
 	"C17": {Name: "C17", Prop: "C17", Weights: weights(map[string]int{"migrate": 12, "reopen": 16, "delete": 18, "trim": 2, "compact": 2, "backup": 0, "ro": 1}), Own: own("version", "migrate", "scan", "next", "consume", "get", "key", "time")},
@@ -172,6 +176,19 @@ type Env struct {
 
 func (e *Env) own(tag string) bool { return e.P.Own[tag] }
 
+// openPath is the directory as it is spelled in Open calls; e.Dir stays the clean path for inspection.
+func (e *Env) openPath() string {
+	switch e.Cfg.DirStyle {
+	case 1:
+		return e.Dir + "/"
+	case 2:
+		return filepath.Dir(e.Dir) + "//" + filepath.Base(e.Dir)
+	case 3:
+		return filepath.Dir(e.Dir) + "/x/../" + filepath.Base(e.Dir)
+	}
+	return e.Dir
+}
+
 func (e *Env) failf(oracle, format string, args ...any) {
 	panic(&Violation{Oracle: oracle, Msg: fmt.Sprintf("step %d: ", e.Step) + fmt.Sprintf(format, args...)})
 }
@@ -202,7 +219,10 @@ func (e *Env) Start() {
 	if err := os.MkdirAll(e.Dir, 0700); err != nil {
 		panic(err)
 	}
-	l, err := klevdb.Open(e.Dir, e.Opts.Options(e.Cfg))
+	if e.Cfg.DirStyle == 3 {
+		_ = os.MkdirAll(filepath.Join(filepath.Dir(e.Dir), "x"), 0700)
+	}
+	l, err := klevdb.Open(e.openPath(), e.Opts.Options(e.Cfg))
 	e.must("open new log", err)
 	e.L = l
 }
@@ -754,7 +774,7 @@ func (e *Env) closeLog() {
 }
 
 func (e *Env) openLog(o OpenOpts) {
-	l, err := klevdb.Open(e.Dir, o.Options(e.Cfg))
+	l, err := klevdb.Open(e.openPath(), o.Options(e.Cfg))
 	e.must(fmt.Sprintf("Open(%+v)", o), err)
 	e.L = l
 	e.closed = false
@@ -832,6 +852,12 @@ func (e *Env) atClose() {
 	}
 	if e.own("rmidx") {
 		e.removalDifferential()
+	}
+	if e.own("layout") {
+		if err := CheckIndexLayout(e.Dir, e.Cfg.KeyIndex, e.Cfg.TimeIndex); err != nil {
+			e.failf("layout", "closed directory: %v", err)
+		}
+		e.St.Inc("closed_dirs_layout_checked")
 	}
 }
 
@@ -1045,6 +1071,10 @@ func (e *Env) applyBackup(op Op) {
 	segsBefore, _ := listLogs(dst)
 	var src map[string][]byte
 	var srcTimes map[string]time.Time
+	if op.Variant == 2 {
+		e.applyBackupRO(op)
+		return
+	}
 	pkgLevel := op.Variant == 1
 	if pkgLevel && e.missingIndexFiles() {
 		// package-level Backup copies segment pairs as they are on disk; see applyPkg("stat")
@@ -1122,6 +1152,73 @@ func (e *Env) applyBackup(op Op) {
 	}
 }
 
+// applyBackupRO: Backup through a read-only handle, as the FIRST call on that handle, optionally with
+// index files removed while the log was closed (the state a crash inside a delete or migrate leaves).
+func (e *Env) applyBackupRO(op Op) {
+	dst := e.bkDir
+	reuse := dst != "" && !op.Fresh
+	if !reuse {
+		e.bkSeq++
+		dst = filepath.Join(e.Root, fmt.Sprintf("backup%d", e.bkSeq))
+		_ = os.MkdirAll(dst, 0700)
+	} else {
+		e.flag("backup-repeat")
+		e.St.Inc("backup_repeated")
+	}
+	e.closeLog()
+	for _, n := range op.RmIdx {
+		if err := os.Remove(filepath.Join(e.Dir, n)); err == nil {
+			e.flag("rmidx")
+		}
+	}
+	o := e.Opts
+	o.Check, o.Recover, o.Eager = false, false, false
+	opts := o.Options(e.Cfg)
+	opts.Readonly = true
+	r, err := klevdb.Open(e.openPath(), opts)
+	e.must("read-only Open", err)
+	berr := r.Backup(dst)
+	cerr := r.Close()
+	e.must("Backup through a read-only handle", berr)
+	e.must("read-only Close", cerr)
+	e.St.Inc("backup_via_readonly_handle")
+	if e.own("backup") {
+		bo := e.Opts
+		bo.Check, bo.Recover, bo.Eager = false, false, false
+		bopts := bo.Options(e.Cfg)
+		if e.canCheck() {
+			if err := klevdb.Check(dst, bopts); err != nil {
+				e.failf("backup", "Check of the backup taken through a read-only handle failed: %v", err)
+			}
+		}
+		b, err := klevdb.Open(dst, bopts)
+		if err != nil {
+			e.failf("backup", "opening the backup failed: %v", err)
+		}
+		func() {
+			defer b.Close()
+			e.observe(b, dst, "backup", "backup taken through a read-only handle")
+		}()
+	}
+	ro := e.Opts
+	ro.Check, ro.Recover = false, false
+	e.openLog(ro)
+	e.bkDir = dst
+	if e.own("backup") {
+		e.recheckBackups(dst)
+		kept := e.bkOld[:0]
+		for _, ob := range e.bkOld {
+			if ob.dir != dst {
+				kept = append(kept, ob)
+			}
+		}
+		e.bkOld = append(kept, oldBackup{dst, e.M.Clone()})
+		if len(e.bkOld) > 3 {
+			e.bkOld = e.bkOld[len(e.bkOld)-3:]
+		}
+	}
+}
+
 func mtimes(dir string) map[string]time.Time {
 	m := map[string]time.Time{}
 	es, _ := os.ReadDir(dir)
@@ -1163,7 +1260,7 @@ func (e *Env) applyRO(op Op) {
 	}
 	var hs []klevdb.Log
 	for i := 0; i < n; i++ {
-		r, err := klevdb.Open(e.Dir, opts)
+		r, err := klevdb.Open(e.openPath(), opts)
 		e.must("read-only Open", err)
 		hs = append(hs, r)
 	}
